@@ -105,20 +105,61 @@ async fn verify_recovered(ctx: &mut Ctx, w: &mut World, id: &str, what: &str) ->
     ctx.n_oracle_fail == before
 }
 
-pub async fn crash_history(ctx: &mut Ctx, root: &std::path::Path, tag: &str) {
-    let cfg = Cfg { nb: 1, segsize: 128 * 1024, compression: ctx.rng.chance(1, 2), sync_ms: 5 };
+/// end of the written records of bucket 0's live segment (real seglog reader)
+fn live_end_of(w: &World) -> u64 {
+    let segs = segment_dirs(&w.dir, 0); let f = segs.last().unwrap().1.join("data.evts");
+    let mut rd = seglog::read::Reader::<1>::open(&f, None).unwrap(); let mut it = rd.iter(48); let mut off = 48u64; while let Ok(Some(r)) = it.next_record() { off += r.len as u64; } off
+}
+
+/// next single-event filler on the way to exactly `target_left` free bytes in the live segment
+/// (None: landed, or cannot get closer)
+fn next_filler(ctx: &mut Ctx, w: &mut World, target_left: u64) -> Option<GenTx> {
+    let left = w.cfg.segsize as u64 - live_end_of(w);
+    if left <= target_left + 150 { ctx.stat(if left == target_left { "pack_landed" } else { "pack_missed" }); return None; }
+    let need = ((left - target_left) as usize).min(20_000);
+    let pk_idx = 0usize; let pkey = w.pkeys[pk_idx]; let pid = w.pid_of(&pkey);
+    let idx = w.next_event_idx; w.next_event_idx += 1;
+    let mut p = need.saturating_sub(140).max(1);
+    let mut tx = GenTx { pkey, pk_idx, pid, exp_seq: sierradb_protocol::ExpectedVersion::Any, events: vec![GenEvent { id: sierradb::id::uuid_v7_with_partition_hash(sierradb::id::uuid_to_partition_hash(pkey)), idx,
+        stream: "s0-fill".into(), exp: sierradb_protocol::ExpectedVersion::Any, ts: 7, name: "f".into(), meta: vec![], payload: ctx.rng.bytes(p) }] };
+    if need < 20_000 {
+        for _ in 0..4 {
+            let sz = stored_sizes(&tx, uuid::Uuid::from_u128(1), &w.spec, w.cfg.nb, w.cfg.compression)[0];
+            if sz == need { break; }
+            p = (p as i64 + need as i64 - sz as i64).max(1) as usize;
+            tx.events[0].payload = ctx.rng.bytes(p);
+        }
+    }
+    Some(tx)
+}
+
+pub async fn crash_history(ctx: &mut Ctx, root: &std::path::Path, tag: &str, shape: u64) {
+    let cfg = Cfg { nb: 1, segsize: 128 * 1024, compression: shape != 3 && ctx.rng.chance(1, 2), sync_ms: 5 };
     let mut w = World::new(ctx, root, cfg, tag);
     let op = format!("st open nb=1 seg={} c={}", w.cfg.segsize, w.cfg.compression as u8);
     w.hist.push(op.clone());
     match open_db(&w.dir, &w.cfg) { Ok(db) => w.db = Some(db), Err(e) => { ctx.oracle_fail(&format!("C05:{}", w.key), &format!("open failed: {e}"), &w.hist); return; } }
     ctx.emit(&op, "ok");
-    let ntx = if ctx.rng.chance(1, 2) { ctx.rng.range(4, 14) } else { ctx.rng.range(20, 45) };
+    // shapes: short / long histories; a torn transaction that is the FIRST one of its live segment
+    // (fresh database, or the transaction that caused a rollover) has no committed transaction before it
+    let ntx = match shape { 0 => 0, 1 | 2 => ctx.rng.range(8, 30), _ => if ctx.rng.chance(1, 2) { ctx.rng.range(4, 14) } else { ctx.rng.range(20, 45) } };
+    if shape <= 2 { ctx.stat(if shape == 0 { "crash_first_tx_of_fresh_database" } else { "crash_first_tx_after_rollover" }); }
     // per accepted tx: (spec before it, start offset, segment id)
     let mut marks: Vec<(Spec, u64, u32, Spec, u16)> = vec![];
     let mut rollovers: Vec<u32> = vec![];
-    for _ in 0..ntx {
-        let mut tx = w.gen_tx(ctx);
-        if ctx.rng.chance(2, 3) { tx.exp_seq = sierradb_protocol::ExpectedVersion::Any; for e in tx.events.iter_mut() { e.exp = sierradb_protocol::ExpectedVersion::Any; e.ts = 7; } }
+    // shape 3: a sealed segment PACKED to 1..7 free bytes (uncompressed records may fill a segment up
+    // to its last byte): half way through, single-event fillers bring the live segment there
+    let pack_target = if shape == 3 { ctx.stat("crash_packed_segment_histories"); Some(ctx.rng.range(1, 7)) } else { None };
+    let (mut i, mut packing) = (0u64, false);
+    while i < ntx || packing {
+        let mut tx = if packing {
+            match next_filler(ctx, &mut w, pack_target.unwrap()) { Some(tx) => tx, None => { packing = false; continue; } }
+        } else {
+            i += 1;
+            if pack_target.is_some() && i == ntx / 2 { packing = true; }
+            w.gen_tx(ctx)
+        };
+        if !packing && ctx.rng.chance(2, 3) { tx.exp_seq = sierradb_protocol::ExpectedVersion::Any; for e in tx.events.iter_mut() { e.exp = sierradb_protocol::ExpectedVersion::Any; e.ts = 7; } }
         let before = w.spec.clone();
         let nb = w.spec.txs.len();
         let seg_before = segment_dirs(&w.dir, 0).last().map(|x| x.0).unwrap_or(0);
@@ -127,6 +168,26 @@ pub async fn crash_history(ctx: &mut Ctx, root: &std::path::Path, tag: &str) {
             let first_off: u64 = line.split("offs=").nth(1).and_then(|x| x.split(',').next()).and_then(|x| x.parse().ok()).unwrap_or(0);
             let seg_after = segment_dirs(&w.dir, 0).last().map(|x| x.0).unwrap_or(0);
             if seg_after != seg_before { rollovers.push(seg_before); }
+            marks.push((before, first_off, seg_after, w.spec.clone(), tx.pid));
+        }
+    }
+    if shape <= 2 {
+        // a multi-event transaction as the last one: 3 x 40 KB incompressible events force a rollover
+        // whenever the live segment is not (nearly) empty, and it is the first one of a fresh database
+        let pk_idx = 0usize; let pkey = w.pkeys[pk_idx]; let pid = w.pid_of(&pkey);
+        let nev = ctx.rng.range(2, 3) as usize;
+        let events = (0..nev).map(|i| { let idx = w.next_event_idx; w.next_event_idx += 1;
+            GenEvent { id: sierradb::id::uuid_v7_with_partition_hash(sierradb::id::uuid_to_partition_hash(pkey)), idx, stream: format!("s0-big{}", i % 2),
+                exp: sierradb_protocol::ExpectedVersion::Any, ts: 7, name: "big".into(), meta: vec![], payload: ctx.rng.bytes(if shape == 0 { 300 } else { 40_000 }) } }).collect();
+        let tx = GenTx { pkey, pk_idx, pid, exp_seq: sierradb_protocol::ExpectedVersion::Any, events };
+        let before = w.spec.clone(); let nb = w.spec.txs.len();
+        let seg_before = segment_dirs(&w.dir, 0).last().map(|x| x.0).unwrap_or(0);
+        let line = do_append(ctx, &mut w, &tx).await;
+        if line.starts_with("ok") && w.spec.txs.len() == nb + 1 {
+            let first_off: u64 = line.split("offs=").nth(1).and_then(|x| x.split(',').next()).and_then(|x| x.parse().ok()).unwrap_or(0);
+            let seg_after = segment_dirs(&w.dir, 0).last().map(|x| x.0).unwrap_or(0);
+            if seg_after != seg_before { rollovers.push(seg_before); }
+            if first_off == 48 { ctx.stat("crash_torn_tx_is_first_of_its_segment"); }
             marks.push((before, first_off, seg_after, w.spec.clone(), tx.pid));
         }
     }
@@ -153,7 +214,12 @@ pub async fn crash_history(ctx: &mut Ctx, root: &std::path::Path, tag: &str) {
             if thorough && *l < 400 { for b in 0..*l as u64 { cuts.push(o + b); } }
         }
         cuts.retain(|c| *c >= *start && *c < end); cuts.sort(); cuts.dedup();
-        if !thorough && cuts.len() > 14 { let keep: Vec<u64> = (0..14).map(|i| cuts[i * cuts.len() / 14]).collect(); cuts = keep; }
+        if !thorough && cuts.len() > 14 {
+            let mut keep: Vec<u64> = (0..14).map(|i| cuts[i * cuts.len() / 14]).collect();
+            // always: right after the last event (= start of the commit record), inside it, its last byte
+            if let Some((o, l)) = bounds.iter().filter(|(o, _)| *o >= *start && *o < end).last() { keep.extend([*o, o + 4, o + *l as u64 - 1]); }
+            keep.retain(|c| *c >= *start && *c < end); keep.sort(); keep.dedup(); cuts = keep;
+        }
         for cut in cuts {
             let cdir = root.join(format!("crash-{tag}-{cut}"));
             let _ = std::fs::remove_dir_all(&cdir);
@@ -248,8 +314,9 @@ pub async fn crash_history(ctx: &mut Ctx, root: &std::path::Path, tag: &str) {
 pub fn run_crash(ctx: &mut Ctx) {
     let rt = tokio::runtime::Builder::new_multi_thread().worker_threads(4).enable_all().build().unwrap();
     let root = if std::path::Path::new("/dev/shm").is_dir() { tempfile::tempdir_in("/dev/shm").unwrap() } else { tempfile::tempdir().unwrap() };
-    let n = if ctx.thorough() { 60 } else { 8 };
-    for i in 0..n { rt.block_on(crash_history(ctx, root.path(), &format!("{i}"))); }
+    // shapes 0..3 are the directed ones (fresh database, after a rollover x2, packed segment): every run has them
+    let n = if ctx.thorough() { 60 } else { 10 };
+    for i in 0..n { let shape = if i < 4 { i } else { 4 + ctx.rng.below(6) }; rt.block_on(crash_history(ctx, root.path(), &format!("{i}"), shape)); }
 }
 
 // ------------------------------------------------------------------ C19: space accounting at the segment end
